@@ -551,6 +551,9 @@ fn run_golden(auts: &[TableDfa]) -> Result<u64, String> {
 }
 
 pub fn replay(case: &Value) -> Result<String, String> {
+    if let Some(r) = super::seqread::replay(case) {
+        return r;
+    }
     let auts = sample_auts();
     match case["kind"].as_str().unwrap() {
         "model" => {
@@ -770,5 +773,7 @@ pub fn plan(tier: Tier) -> Plan {
         }));
     }
     p.must_be_nonzero = vec!["gate_cases".into(), "golden_queries".into(), "files_v1".into(), "files_v2".into(), "fanout_models".into()];
+    p.rule.push_str(super::seqread::RULE);
+    super::seqread::add_units(&mut p, super::seqread::Class::Reopen, if tier.thorough() { 5 } else { 4 });
     p
 }
